@@ -71,7 +71,12 @@ def cmd(op, a, ib=(), ib2=()):
     return {"op": op, "a": list(a), "ib": list(ib), "ib2": list(ib2)}
 
 
+FAULTABLE = ("dup", "splice", "split", "copy", "merge", "insert", "delete", "resize", "prepend")
+
+
 def cmd_text(c):
+    if c.get("fault"):
+        return "F%d %s" % (c["fault"], cmd_text({k: v for k, v in c.items() if k != "fault"}))
     op, a = c["op"], c["a"]
     H = lambda i: "h%d" % a[i]
     if op == "alloc":
@@ -104,6 +109,10 @@ def cmd_text(c):
 def text_cmd(line):
     """inverse of cmd_text (replay files store the text form)"""
     t = line.split()
+    if len(t[0]) == 2 and t[0][0] == "F" and t[0][1].isdigit():
+        c = text_cmd(" ".join(t[1:]))
+        c["fault"] = int(t[0][1])
+        return c
     op = t[0]
     hn = lambda s: int(s[1:])
     if op == "alloc":
@@ -131,10 +140,17 @@ def text_cmd(line):
     raise vlib.ToolError("unknown command line " + line)
 
 
+FERR = [0]      # commands whose first attempt (an allocation refused) reported an error and were run again
+
+
 def parse_result(c, line):
     """result line of the harness -> fields r, n, b, ps, pe, pb"""
     op = c["op"]
     t = line.split()
+    ferr = bool(t) and t[0] == "ferr"
+    if ferr:
+        t = t[1:]
+        FERR[0] += 1
     res = {"r": t[0] if t else "crash", "n": -1, "b": [], "ps": [], "pe": [], "pb": []}
     if not t:
         raise vlib.ToolError("replay_block: empty result for %r" % cmd_text(c))
@@ -219,7 +235,7 @@ class Exe:
 class Harness:
     def __init__(self, ctx, san="asan"):
         self.ctx = ctx
-        self.bin = ctx.cc("replay_block", SRCS, san=san)
+        self.bin = ctx.cc("replay_block", SRCS, san=san, flags=["-Wl,--wrap=malloc"])
         self.env = {"ASAN_OPTIONS": "detect_leaks=0:abort_on_error=0:exitcode=66",
                     "UBSAN_OPTIONS": "print_stacktrace=1:halt_on_error=1",
                     "REPLAY_ALARM_S": "4" if ctx.quick else "10"}
@@ -586,6 +602,11 @@ class Gen:
             elif op == "auditall":
                 for g in lv:
                     out.append(cmd("audit", [g]))
+        # refused allocations: one structural call in eight runs with the k-th allocation of the library
+        # refused (the harness runs it again if it reported an error: nothing may have changed)
+        for c in out:
+            if c["op"] in FAULTABLE and r.chance(1, 8):
+                c["fault"] = 1 + r.below(3)
         for g in range(self.nh):
             out.append(cmd("audit", [g]))
         return out
